@@ -282,6 +282,40 @@ pub fn corr_smh(ctx: &mut Ctx) {
                 "m":m,"history":hist,"stream":xs,"smh_f64_ok": r64 == smh_sketch_f64(m, &xs),"smh_f32_ok": r32 == smh_sketch_f32(m, &xs),"smh2_ok": r2 == smh2_sketch(m, &xs)}));
         }
     }
+    // MIXED entry points at small n (where one item's wrong treatment is visible): slice+slice, slice+items, items+slice, three slices
+    // against one slice. Implementation only.
+    for c in 0..ctx.n(60, 600) {
+        let mut rng = ctx.rng.fork();
+        let m = [1usize, 2, 3, 8, 16, 64, 257][c as usize % 7];
+        let n = 2 + rng.below(if c % 2 == 0 { 4 } else { 2 * m as u64 + 6 }) as usize;
+        let xs = gen_stream(&mut rng, n);
+        let cut1 = 1 + rng.below(n as u64 - 1) as usize;
+        let cut2 = cut1 + rng.below((n - cut1) as u64 + 1) as usize;
+        ctx.begin_case(&format!("mixed entry points smh m={} n={} cuts={},{}", m, n, cut1, cut2));
+        ctx.mark_nontrivial();
+        ctx.count("mixed entry points (slice/slice, slice/items, items/slice) vs one slice");
+        // plan: list of (is_slice, range)
+        let plans: Vec<(&str, Vec<(bool, std::ops::Range<usize>)>)> = vec![
+            ("slice+slice", vec![(true, 0..cut1), (true, cut1..n)]),
+            ("slice+items", vec![(true, 0..cut1), (false, cut1..n)]),
+            ("items+slice", vec![(false, 0..cut1), (true, cut1..n)]),
+            ("slice+slice+slice", vec![(true, 0..cut1), (true, cut1..cut2), (true, cut2..n)]),
+            ("slice+item+slice", vec![(true, 0..cut1), (false, cut1..cut2), (true, cut2..n)]),
+        ];
+        for (pname, plan) in plans {
+            let r64 = catch(std::panic::AssertUnwindSafe(|| { let mut s = SuperMinHash::<f64, u64, FnvHasher>::new(m, BuildHasherDefault::<FnvHasher>::default());
+                for (sl, r) in &plan { if *sl { let part = &xs[r.clone()]; let res = s.sketch_slice(part); if !part.is_empty() { res.unwrap(); } /* an empty slice is refused with Err and changes nothing */ } else { for x in &xs[r.clone()] { s.sketch(x).unwrap(); } } } s.get_hsketch().clone() }));
+            let r32 = catch(std::panic::AssertUnwindSafe(|| { let mut s = SuperMinHash::<f32, u64, FnvHasher>::new(m, BuildHasherDefault::<FnvHasher>::default());
+                for (sl, r) in &plan { if *sl { let part = &xs[r.clone()]; let res = s.sketch_slice(part); if !part.is_empty() { res.unwrap(); } /* an empty slice is refused with Err and changes nothing */ } else { for x in &xs[r.clone()] { s.sketch(x).unwrap(); } } } s.get_hsketch().clone() }));
+            let r2 = catch(std::panic::AssertUnwindSafe(|| { let mut s = SuperMinHash2::<u64, u64, FnvHasher>::new(m, BuildHasherDefault::<FnvHasher>::default());
+                for (sl, r) in &plan { if *sl { let part = &xs[r.clone()]; let res = s.sketch_slice(part); if !part.is_empty() { res.unwrap(); } /* an empty slice is refused with Err and changes nothing */ } else { for x in &xs[r.clone()] { s.sketch(x).unwrap(); } } } s.get_hsketch().clone() }));
+            if r64 != smh_sketch_f64(m, &xs) || r32 != smh_sketch_f32(m, &xs) || r2 != smh2_sketch(m, &xs) {
+                ctx.oracle_failure(serde_json::json!({"kind":"impl_violates_property","what":"chunking the stream over several calls (mixed entry points) gives another sketch than one slice",
+                    "plan":pname,"m":m,"stream":xs,"cuts":[cut1,cut2],"smh_f64_ok": r64 == smh_sketch_f64(m, &xs),"smh_f32_ok": r32 == smh_sketch_f32(m, &xs),"smh2_ok": r2 == smh2_sketch(m, &xs)}));
+                break;
+            }
+        }
+    }
     // long streams on ONE instance (> 2^16 + 2^8 items): counters, ranks or generation stamps kept in a narrow
     // integer show only then. Implementation only: three orders of the same items on fresh instances.
     for (m, n) in if ctx.quick() { vec![(8usize, 65_536usize + 300)] } else { vec![(8, 65_536 + 300), (64, 140_000), (3, 70_000)] } {
